@@ -174,8 +174,37 @@ def run(ctx):
     ms = summarize(prog, m)
     mp = m.params
     merged = False
-    for _pc, _t, _n, rst in ms.returns:
-        v = rst.env.get(f"{mp[0]}._capabilities")
+    other_caps = ("attr", ("param", mp[1]), "_capabilities")
+
+    def certainly_empty(path):
+        """the path's tests say the other response holds no capabilities (an update with it would change nothing)"""
+        for c, tr in path:
+            c = strip(c)
+            if c[0] == "un" and c[1] == "not":
+                c, tr = strip(c[2]), not tr
+            if (c == other_caps or (call_is(c, "len") and strip(c[2][0]) == other_caps)) and not tr:
+                return True
+            if c[0] == "cmp" and call_is(strip(c[2]), "len") and strip(strip(c[2])[2][0]) == other_caps and is_const(c[3], 0) \
+                    and ((c[1] in (">", "!=") and not tr) or (c[1] in ("==", "<=") and tr)):
+                return True
+            if c[0] == "cmp" and strip(c[2]) == other_caps and strip(c[3]) in (("dict", ()), ("call", ("ext", "dict"), (), ())) \
+                    and ((c[1] == "!=" and not tr) or (c[1] == "==" and tr)):
+                return True
+        return False
+
+    def leaves(v, path):
+        if v is not None and v[0] == "ite":
+            yield from leaves(v[2], path + [(v[1], True)])
+            yield from leaves(v[3], path + [(v[1], False)])
+        else:
+            yield v, path
+    outcomes = []
+    for pc_, _t, _n, rst in ms.returns:
+        outcomes.extend(leaves(rst.env.get(f"{mp[0]}._capabilities"), list(pc_)))
+    skipped_only_when_empty = all(certainly_empty(path) for v, path in outcomes if v is None or strip(v) == ("attr", ("param", mp[0]), "_capabilities"))
+    for v, _path in outcomes:
+        if v is None or strip(v) == ("attr", ("param", mp[0]), "_capabilities"):
+            continue
         if v and v[0] == "mut" and v[1] == "update" and v[2] == ("attr", ("param", mp[0]), "_capabilities") \
                 and strip(v[3][0]) == ("attr", ("param", mp[1]), "_capabilities"):
             merged = True
@@ -194,6 +223,7 @@ def run(ctx):
                         and e is not None and e[0] == "store" and e[1] == v and strip(e[2]) == ("item", ("iter", ms.ta.terms_at[loop.iter]), 0) \
                         and strip(e[3]) == ("item", ("iter", ms.ta.terms_at[loop.iter]), 1):
                     merged = True
+    merged = merged and skipped_only_when_empty
     ctx.ob("C15.d", MERGE, merged, "merge(other) is self._capabilities.update(other._capabilities) (later records override earlier ones)",
            func=MERGE, file=m.module.rel, construct="self._capabilities.update(other._capabilities)",
            fail="merge() is not an in-order dict.update of the other response's capabilities into this one")
